@@ -385,3 +385,22 @@ func Verif_C01_real_rationals() {
 	verifrt.Assert(ok, "output parses as exactly one object")
 	verifrt.Assert(verifEqual(x, got), "real round trip")
 }
+
+// Verif_C01_integer_boundaries: the extreme and power-of-two integers as
+// concrete values (Verif_C01_integer decides all int64 symbolically; this
+// harness keeps the boundary cases decided even if a changed parser makes
+// the symbolic queries too hard for the solver).
+func Verif_C01_integer_boundaries() {
+	vals := []int64{0, 1, -1, 9, 10, -10, 99, 100, 1<<31 - 1, 1 << 31, -1 << 31, 1<<32 - 1, 1 << 32, 1<<53 - 1, 1 << 53, 1<<53 + 1,
+		999999999999999999, 1000000000000000000, math.MaxInt64 - 1, math.MaxInt64, math.MinInt64, math.MinInt64 + 1, -999999999999999999, -1000000000000000000}
+	x := Integer(vals[verifrt.Choice("value", len(vals))])
+	var buf bytes.Buffer
+	err := Format(&buf, verifOpt(), x)
+	verifrt.Assert(err == nil, "format succeeds")
+	got, ok := verifParseOne(buf.Bytes())
+	verifrt.Cover("parsed")
+	verifrt.Assert(ok, "output parses as exactly one object")
+	g, isInt := got.(Integer)
+	verifrt.Assert(isInt, "parsed value is an integer")
+	verifrt.Assert(g == x, "integer round trip")
+}
